@@ -15,7 +15,7 @@
   utility although a cold utility is shifted UP (known finding C03-cold-sufficiency-sign) — so the
   unconditional statement "the duties always sum to Qh / Qc" is not claimed as a theorem.
 -/
-import OPModel.Proofs.UtilityClosure
+import OPModel.Proofs.UtilityFeasible
 import OPModel.Proofs.DefaultsLemmas
 import OPModel.Gen.Constants
 
@@ -85,6 +85,46 @@ theorem covering_ladder_closes_hot (tol : Rat) (htol : 0 ≤ tol) (T H : List Ra
     (assignLoop tol T H true limit 0 (pre ++ [uc])).sum ≤ limit := by
   have := assignLoop_closes_hot tol htol T H uc limit hcov hlen hmono hhead hlast pre 0 h0
   simpa using this
+
+/-- **Any ladder that CONTAINS a utility lying at or above the level where the heating demand starts closes
+    the hot allocation** — wherever that utility stands in the processing order and whatever comes before or
+    after it.  `m` is a level at or below which every decreasing interval of the profile starts (rows above
+    the hottest shifted cold target carry no heating demand); the utility's shifted band `[tt, ts]` lies at or
+    above `m` — which is what `hot_cover_exists` provides with `m = HU_T_min`. -/
+theorem ladder_with_cover_closes_hot (tol : Rat) (htol : 0 ≤ tol) (T H : List Rat) (pre post : List ULevel) (uc : ULevel)
+    (limit m : Rat) (hm : m ≤ uc.tt) (hts : uc.tt ≤ uc.ts)
+    (hstart : ∀ c ∈ candidates.cells' (T.zip H), c.1.2 ≠ c.2.2 → c.1.1 ≤ m)
+    (hlen : T.length = H.length) (hdesc : T.Pairwise (· > ·)) (hmono : H.Pairwise (· ≥ ·))
+    (hhead : H.head? = some limit) (hlast : ∃ z, H.getLast? = some z ∧ z < limit) (h0 : 0 ≤ limit) :
+    limit - tol ≤ (assignLoop tol T H true limit 0 (pre ++ uc :: post)).sum ∧
+    (assignLoop tol T H true limit 0 (pre ++ uc :: post)).sum ≤ limit := by
+  have := assignLoop_closes_of_cover_mid tol htol T H true uc limit (le_head_of_desc H limit hmono hhead)
+    (fun qA hq => maximise_covering_hot_from tol htol T H uc qA limit m hm hts hstart hlen hdesc hmono hhead hlast hq)
+    post pre 0 h0
+  simpa using this
+
+/-- **… and on the cooling side**: a cold utility whose shifted band lies at or below the level `m` at or above
+    which every non-flat interval of the cooling profile ends closes the cold allocation, wherever it stands.
+    (Unlike on the hot side the data preparation does NOT always provide such a utility:
+    `cold_cover_fails_witness`.) -/
+theorem ladder_with_cover_closes_cold (tol : Rat) (htol : 0 ≤ tol) (T H : List Rat) (pre post : List ULevel) (uc : ULevel)
+    (limit m : Rat) (hm : uc.tt ≤ m) (hts : uc.ts ≤ uc.tt)
+    (hstart : ∀ c ∈ candidates.cells' (T.zip H), c.1.2 ≠ c.2.2 → m ≤ c.2.1)
+    (hlen : T.length = H.length) (hdesc : T.Pairwise (· > ·)) (hmono : H.Pairwise (· ≤ ·))
+    (hlastv : H.getLast? = some limit) (hhead : ∃ z, H.head? = some z ∧ z < limit) (h0 : 0 ≤ limit) :
+    limit - tol ≤ (assignLoop tol T H false limit 0 (pre ++ uc :: post)).sum ∧
+    (assignLoop tol T H false limit 0 (pre ++ uc :: post)).sum ≤ limit := by
+  have := assignLoop_closes_of_cover_mid tol htol T H false uc limit (le_last_of_asc H limit hmono hlastv)
+    (fun qA hq => maximise_covering_cold_from tol htol T H uc qA limit m hm hts hstart hlen hdesc hmono hlastv hhead hq)
+    post pre 0 h0
+  simpa using this
+
+/-- Non-vacuity: a hot stream supplied at 300 above the hottest cold target (205): the heating profile is flat
+    from 300 to 205; steam at 203.5 … 203.4 on the table scale does not reach it, the default utility at
+    205 … 205.1 does, whatever the order. -/
+example : assignLoop Gen.tol [300, 205, 150, 100] [324, 324, 100, 0] true 324 0 [⟨2035 / 10, 2034 / 10⟩, ⟨2051 / 10, 205⟩] = [100, 224] ∧
+    assignLoop Gen.tol [300, 205, 150, 100] [324, 324, 100, 0] true 324 0 [⟨2051 / 10, 205⟩, ⟨2035 / 10, 2034 / 10⟩] = [324, 0] := by
+  constructor <;> decide +kernel
 
 /-- **… and likewise on the cooling side**: non-decreasing profile (read downwards) ending at
     `limit = Qc`, last utility at least as cold as every row in supply and target level. -/
